@@ -170,6 +170,7 @@ def handle(req):
             os_off = secs(d.astimezone().utcoffset())
         except (OverflowError, ValueError, OSError):
             os_off = None
+        out['fold'] = bool(zi_ok) and d.replace(tzinfo=Z, fold=1).utcoffset() != d.replace(tzinfo=Z).utcoffset()
         out.update({'zi_exists': zi_ok, 'zi_off': zi_off, 'libc_exists': lc_ok, 'libc_off': lc_off, 'os_off': os_off})
         return out
     if kind == 'parse':
